@@ -98,7 +98,7 @@ def e2e_job(args: dict) -> dict:
     return {"idx": args["idx"], "lib": out, "cli": cli, "digest": digest([out, cli])}
 
 
-COUNTS = {"quick": {"shadow": 90, "e2e": 14, "wall": 110}, "thorough": {"shadow": 2500, "e2e": 300, "wall": 1700}}
+COUNTS = {"quick": {"shadow": 130, "e2e": 18, "wall": 110}, "thorough": {"shadow": 2500, "e2e": 300, "wall": 1700}}
 ASSUMPTIONS = [
     "the pure-Python fallback is the reference model; agreement means equal return values (datetimes and intervals field by field, floats exactly) or both raising - exception types are not compared",
     "arguments are those the simulated workloads produce plus a seeded probe client at the edges: sampling, not the exhaustive grid",
